@@ -177,8 +177,22 @@ type Server struct {
 	Metadata map[string][]map[string]string
 	eng      *promql.Engine
 	mu       sync.Mutex
+	dbMu     sync.RWMutex
 	Log      []Request
 	Requests atomic.Int64
+}
+
+// SetDB replaces the stored data while the server is running (a metric that appears later).
+func (s *Server) SetDB(db *DB) {
+	s.dbMu.Lock()
+	s.DB = db
+	s.dbMu.Unlock()
+}
+
+func (s *Server) currentDB() *DB {
+	s.dbMu.RLock()
+	defer s.dbMu.RUnlock()
+	return s.DB
 }
 
 func parseTime(s string) time.Time {
@@ -222,7 +236,7 @@ func NewServer(db *DB, now func() time.Time) *Server {
 			ts = parseTime(t)
 		}
 		record(Request{Path: "query", Query: r.Form.Get("query"), Start: ts})
-		q, err := s.eng.NewInstantQuery(r.Context(), s.DB, nil, r.Form.Get("query"), ts)
+		q, err := s.eng.NewInstantQuery(r.Context(), s.currentDB(), nil, r.Form.Get("query"), ts)
 		if err != nil {
 			apiError(w, 400, "bad_data", err.Error())
 			return
@@ -258,7 +272,7 @@ func NewServer(db *DB, now func() time.Time) *Server {
 			apiError(w, 400, "bad_data", "zero or negative step")
 			return
 		}
-		q, err := s.eng.NewRangeQuery(r.Context(), s.DB, nil, r.Form.Get("query"), start, end, step)
+		q, err := s.eng.NewRangeQuery(r.Context(), s.currentDB(), nil, r.Form.Get("query"), start, end, step)
 		if err != nil {
 			apiError(w, 400, "bad_data", err.Error())
 			return
